@@ -1888,6 +1888,10 @@ class DocutilsRenderer(RendererProtocol):
         for node in result:
             if isinstance(node, nodes.Element) and node.line is None:
                 node.line = position
+            # likewise the file: inside an included file it is that file,
+            # not the including one (the document's current source)
+            if isinstance(node, nodes.Element) and node.source is None:
+                node.source = self.document["source"]
 
         assert isinstance(
             result, list
